@@ -428,3 +428,32 @@ func Malform(r *ref.R, p string) (string, string) {
 		}), "bad-regexp"
 	}
 }
+
+// Cut picks a position at which to cut a pattern into prefix and rest. Positions
+// next to a parameter token (right behind it, one or two bytes later, right
+// before it, inside it) are preferred: that is where prefix cleaning and facade
+// concatenation have their corner cases.
+func Cut(r *ref.R, p string) int {
+	if len(p) == 0 {
+		return 0
+	}
+	if r.Chance(1, 2) {
+		var near []int
+		for i := 0; i < len(p); i++ {
+			switch p[i] {
+			case '}':
+				for d := 1; d <= 3; d++ {
+					if i+d <= len(p) {
+						near = append(near, i+d)
+					}
+				}
+			case '{':
+				near = append(near, i, i+1)
+			}
+		}
+		if len(near) > 0 {
+			return ref.Pick(r, near)
+		}
+	}
+	return r.Intn(len(p) + 1)
+}
